@@ -29,7 +29,8 @@ def run(pid, tier="quick", seed=0):
         print("CHECK-ERROR property=%s no rule module (not claimed / not applicable)" % pid)
         return 2
     rep = Report(pid, tier, seed)
-    prog = program("default")
+    import os
+    prog = program(os.environ.get("VERIF_CONFIG", "default"))
     rep.stats = prog.stats()
     rep.trusted = ["rustc nightly front end + MIR construction (facts)", "std and external crates (not analysed)",
                    "mirfacts driver (fact extraction)", "tvrules rule engine"]
